@@ -200,9 +200,9 @@ theorem owned_preComplete (fs : FS) : WritesOwned cfg rq.key (preComplete cfg rq
   repeat' apply WritesIn.append
   · exact WritesOwned.of (writes_openTmp cfg fs 0 _ _ _) (fun q h => owned_near_dir_tmp (List.prefix_refl _) h)
   · exact owned_write_ref cfg rq.key (List.prefix_refl _) (ref_openTmp cfg fs 0 _ _ _) _
-  · exact hstore _ _
   · exact owned_mkdirAll_prefix_obj cfg rq.key _ (List.dropLast_prefix _)
   · exact WritesIn.ite (owned_archive cfg rq rq.key _) (WritesIn.nil _)
+  · exact WritesOwned.of (writes_deleteAttrs cfg _ _) (fun q h => owned_side_down h)
   · exact hstore _ _
 
 theorem owned_cleanupUpload (fs : FS) : WritesOwned cfg rq.key (cleanupUpload cfg rq fs) := by
